@@ -21,7 +21,8 @@ def opScript (j : Json) : J Json := do
     | .error e => [("level", jstr ("err:" ++ e.tag))]
   let kinds := subs.map fun kv => match dispatch kv.1 with
     | .ok .metadata => jstr "metadata" | .ok .data => jstr "data" | .error e => jstr ("err:" ++ e.tag)
-  pure (jobj ([("code", jchars code), ("subs", subsJson subs), ("dispatch", jarr kinds)] ++ runner))
+  pure (jobj ([("code", jchars code), ("subs", subsJson subs), ("dispatch", jarr kinds),
+               ("closed", Json.bool (closedScript s))] ++ runner))
 
 def segOfJson (j : Json) : J Spec.Seg := do
   let a ← asList j
@@ -64,9 +65,12 @@ def opScriptEnum (j : Json) : J Json := do
   let lo ← asNat (← fld j "from")
   let hi ← asNat (← fld j "to")
   let mut out : Array String := #[]
+  let mut closed : Array Char := #[]
   for i in [lo:hi] do
-    out := out.push (scriptRepr (preprocess (nthScript alpha len i)))
-  pure (jobj [("res", jstr (String.intercalate ";" out.toList))])
+    let s := nthScript alpha len i
+    out := out.push (scriptRepr (preprocess s))
+    closed := closed.push (if closedScript s then 'C' else 'O')
+  pure (jobj [("res", jstr (String.intercalate ";" out.toList)), ("closed", jstr (String.ofList closed.toList))])
 
 partial def valOfJson : Json → Val Json
   | .arr a => .list (a.toList.map valOfJson)
